@@ -51,6 +51,10 @@ T = {
                  'a plain nested value in which the same dict / list appears at two paths', 'missed', ''),
     'C10-r4m2': ('Dict.items() yields inferred values for Inferential members while lookups use sym_getattr: traversal reports paths that do not resolve',
                  'a pg.Ref / ValueFromParentChain stored directly in a pg.Dict and a traversal-based API', 'missed', 'C02 missed'),
+    'C11-r4m1': ('CustomDecisionPoint._next_dna treats a DNA whose value is falsy as no previous DNA',
+                 "an enumerable custom decision point whose values include ''", 'inconclusive (machine overloaded, per-case timeout)', ''),
+    'C11-r4m2': ('Space.space_size multiplies element sizes including the -1 sentinel of infinite elements',
+                 'an even number of float / non-enumerable custom elements in one Space', 'inconclusive (machine overloaded, per-case timeout)', ''),
     'C13-r4m1': ('DerivedValue.resolve treats a referent whose value is None as absent',
                  'pg.hyper.reference to a placeholder with None among its candidates', 'missed', ''),
     'C13-r4m2': ('OneOf.custom_apply assigns its value spec before validating the candidates: after a failed, handled bind a later bind to a wider spec is accepted unchecked',
